@@ -103,6 +103,8 @@ fn run_scenario(sc: &Value, t: &mut Tracer) {
 			"Play" => {
 				let rejected = step["rejected"].as_bool().unwrap_or(false);
 				let (dec, stats) = ScriptDecoder::new(len, vec![pk], 0, fail);
+				// (a decode call past the end of the stream - which kira must never make - fails, or gives an empty chunk)
+				let dec = dec.with_eos(sc["eos"].as_u64().unwrap_or(1) as u8);
 				let ctl = Ctl::new();
 				ctl.set_sites(&["dec.top", "dec.wait", "dec.err", "dec.end"]);
 				expect_decoder_thread(ctl.clone());
